@@ -463,6 +463,8 @@ def cli(argv=None, mode='output'):
                     export_header=args.verbose,
                     export_varnames=args.varnames,
                     extra_text=extra_text)
+        # write errors (e.g. no space left) must surface now
+        args.output.flush()
 
     return None
 
